@@ -353,7 +353,7 @@ func TestVerifP2cConcurrent(t *testing.T) {
 		bound = 3
 	}
 	for _, n := range []int{1, 2} {
-		for _, kind := range []string{"pick|done", "pick|pick", "done|done", "pick|done|pick"} {
+		for _, kind := range []string{"pick|done", "pick|pick", "done|done", "pick|done|pick", "done|done|tick", "done|fail|tick"} {
 			if !vrt.Shard(50 + n) {
 				continue
 			}
@@ -382,6 +382,11 @@ func TestVerifP2cConcurrent(t *testing.T) {
 					wg.Add(1)
 					go func() {
 						defer wg.Done()
+						if role == "tick" {
+							// the clock moves on while completions are being processed
+							vrt.Advance(2 * time.Second)
+							return
+						}
 						if role == "pick" {
 							res, err := s.p.Pick(balancer.PickInfo{FullMethodName: "/m", Ctx: context.Background()})
 							if err != nil {
@@ -397,7 +402,11 @@ func TestVerifP2cConcurrent(t *testing.T) {
 						i := di
 						di++
 						mu.Unlock()
-						dones[i](balancer.DoneInfo{})
+						if role == "fail" {
+							dones[i](balancer.DoneInfo{Err: status.Error(codes.Unavailable, "down")})
+						} else {
+							dones[i](balancer.DoneInfo{})
+						}
 						mu.Lock()
 						s.dones[ids[i]]++
 						mu.Unlock()
